@@ -906,6 +906,22 @@ async fn resolve_delegation(
         {
             return Ok(None);
         }
+        // The link this one descends from confers on the *delegator*, and a
+        // Principal that is not active holds nothing (§9). Its own requests
+        // are refused by its status; what it issued has to stop with it, or a
+        // suspended intermediate's sub-agents keep everything it handed them —
+        // more than their delegator currently holds (§35). A delegator whose
+        // authority is a Grant or ownership gets this from `resolve_at_depth`
+        // below; one whose authority is itself a Delegation never goes
+        // through there, so it is asked here.
+        let delegator_live = store
+            .governance
+            .find_principal(&delegation.delegator_principal)
+            .await?
+            .is_some_and(|principal| principal.status == status::ACTIVE);
+        if !delegator_live {
+            return Ok(None);
+        }
         let Some(inherited) =
             Box::pin(resolve_delegation(store, space_id, &linked, depth + 1)).await?
         else {
